@@ -20,12 +20,12 @@ if ! (cd "$d/repo" && go build ./... 2>"$d/build.err"); then
 fi
 case "$props" in
 engine:*)
-  out=$(/verif/bin/calcsa -repo "$d/repo" -verif "$d/verif" -engine "${props#engine:}" 2>&1)
+  out=$(${CALCSA:-/verif/bin/calcsa} -repo "$d/repo" -verif "$d/verif" -engine "${props#engine:}" 2>&1)
   if echo "$out" | grep -q ': \(violated\|undecided\): '; then rc=1; else rc=0; fi
   out=$(echo "$out" | grep ': \(violated\|undecided\): ')
   ;;
 *)
-  out=$(/verif/bin/calcsa -repo "$d/repo" -verif "$d/verif" -property "$props" 2>&1); rc=$?
+  out=$(${CALCSA:-/verif/bin/calcsa} -repo "$d/repo" -verif "$d/verif" -property "$props" 2>&1); rc=$?
   ;;
 esac
 echo "$out" | sed "s#$d/repo/##g" | grep -v '^      ' | grep -v '^KNOWN-FINDING' | cut -c1-${MUTEST_COLS:-300} | head -${MUTEST_LINES:-8}
